@@ -223,7 +223,8 @@ def confirm_lex_failure(P, name, d, f, r):
 # ----------------------------------------------------------------------------- the lexing family
 def lex_family(prop, tier, seed, *, relevant, select, name, cfgs, N, starts, budget, profiles=('dev',),
                partial=False, level='translation_validation', extra_assumptions=(), long_defs=(), long_N=17,
-               rule=None, post=None, evidence_hook=None, acceptance=None, release_only=None, stream_defs=(), stream_N=4, cfg_filter=None):
+               rule=None, post=None, evidence_hook=None, acceptance=None, release_only=None, stream_defs=(), stream_N=4, cfg_filter=None,
+               validate_samples=0):
     ev = report.Evidence(prop, tier, seed, level)
     name = f'{name}-{prop}'      # own crate dir per check: checks may run concurrently
     alld = corpus_defs.all_defs(seed, tier != 'quick')
@@ -259,7 +260,8 @@ def lex_family(prop, tier, seed, *, relevant, select, name, cfgs, N, starts, bud
                     payloads.append(dict(key=f'{d.id}/{c}/{prof}/long{ln}', d=d, mir=mir, cfg=c, tables=P.tables[d.id],
                                          N=ln, Nmin=max(9, ln - 8), start=0, budget=budget * 3, release=False, partial=partial))
     random.Random(seed).shuffle(payloads)
-    # heavy definitions first (better packing)
+    # heavy tasks first (better packing on the pool): long and whole-stream runs, then the rest in seeded order
+    payloads.sort(key=lambda pl: 0 if ('/long' in pl['key'] or pl.get('stream')) else 1)
     t = time.time()
     results = pipeline.run_tasks(task_step, payloads)
     explore_s = round(time.time() - t, 1)
@@ -303,6 +305,40 @@ def lex_family(prop, tier, seed, *, relevant, select, name, cfgs, N, starts, bud
         log(f'ENGINE: {key}: {msg[-600:]}')
     if engine_errors:
         rc = 2
+    # ---- translator validation on *passing* leaves: the executor's outcome for a sampled model of a leaf must be what the
+    # real build produces for that input (the native replay shares no code with the executor)
+    sample_cov = None
+    if validate_samples:
+        agree = disagree = 0
+        for st, key, r, wall in results:
+            if st != 'ok' or r.get('partial') or r['failures']:
+                continue
+            d = by_def[r['id']]
+            for smp in r['samples'][:validate_samples]:
+                if smp.get('skips') is None or smp['result'][2] is None:
+                    continue
+                data = bytes.fromhex(smp['input'])[:smp['len']]
+                try:
+                    items, panicked, raw = pipeline.native_run(native_binary(P, name, r['cfg'], r['profile']), d.id, data,
+                                                               start=smp['start'])
+                except build.BuildError as e:
+                    log('ENGINE: native build for sample validation failed: ' + str(e)[-400:])
+                    rc = max(rc, 2)
+                    break
+                kind, vi, ss, ee = smp['result']
+                got = (items or [None])[0]
+                ok = got is not None and not panicked and got[0] == kind and (got[1], got[2]) == (ss, ee)
+                if ok and kind == 'ok' and isinstance(vi, int) and vi < len(d.variants):
+                    vn = d.variants[vi].name
+                    ok = got[3] == vn or got[3].startswith(vn + '(')
+                if ok:
+                    agree += 1
+                else:
+                    disagree += 1
+                    log(f'ENGINE: executor and native build disagree on a passing leaf of {d.id} [{r["cfg"]}@{r["profile"]}] '
+                        f'start={smp["start"]} input={data.hex()}: executor {smp["result"]}, native {got} {panicked or ""}')
+                    rc = max(rc, 2)
+        sample_cov = {'leaves_replayed_natively': agree + disagree, 'agree': agree, 'disagree': disagree}
     # ---- replay & report
     seen = set()
     confirmed = 0
@@ -363,7 +399,7 @@ def lex_family(prop, tier, seed, *, relevant, select, name, cfgs, N, starts, bud
         'max_fraction_of_call_step_budget': tot.get('max_call_fraction', 0.0),
         'functions_encoded': sorted(fns)[:400], 'functions_encoded_count': len(fns), 'stubs': sorted(builtins),
         'failures_confirmed_natively': confirmed, 'models_not_reproduced': unconfirmed,
-        'spinning_models_not_replayed': spin_skipped,
+        'spinning_models_not_replayed': spin_skipped, 'passing_leaf_samples_vs_native': sample_cov,
         'unexpected_verdicts': [d.id for d in P.unexpected],
         'build_s': P.build_s, 'prepare_s': P.prep_s, 'explore_s': explore_s,
         'checker_cmd': f'./check {prop} --tier {tier}',
@@ -421,8 +457,11 @@ def sel_for(tier, *tags):
 
 
 LONG_QUICK = (('kw_ident', 17), ('long_loop', 72), ('neg_loop_bytes', 20), ('long_ident', 20), ('long_float', 20), ('long_skip', 20))
-LONG_THOROUGH = (('kw_ident', 17), ('holes', 17), ('strings', 17), ('numbers', 17), ('skips', 17), ('nested_rep1', 17),
-                 ('long_loop', 72), ('long_loop', 136), ('neg_loop_bytes', 28), ('strings', 20), ('long_ident', 28), ('long_float', 20), ('long_skip', 28))
+LONG_THOROUGH = (('kw_ident', 17), ('holes', 17), ('long_loop', 72), ('long_loop', 136), ('neg_loop_bytes', 28),
+                 ('long_ident', 28), ('long_float', 20), ('long_skip', 28))
+# (definitions with loops over multi-byte characters or several interacting loops -- strings, numbers, nested_rep1, skips --
+# were tried at 17-20 bytes: their path count is exponential in the run length, they used 60 % of the thorough tier's time
+# only to fall back to 9-13 bytes; they stay at the tier's N)
 
 
 def c01(tier, seed):
@@ -435,7 +474,8 @@ def c01(tier, seed):
         os.environ['VERIF_EXPORT_SMT'] = d
     hook = {}
     rc = lex_family('C01', tier, seed, relevant={'C01'}, select=sel_for(tier), name='lex',
-                    long_defs=(('long_loop', 40), ('long_ident', 20), ('long_float', 20), ('long_skip', 20)) if tier == 'quick' else LONG_THOROUGH, evidence_hook=hook, **tp)
+                    long_defs=(('long_loop', 40), ('long_ident', 20), ('long_float', 20), ('long_skip', 20)) if tier == 'quick' else LONG_THOROUGH, evidence_hook=hook,
+                    validate_samples=3, **tp)
     ev = hook['ev']
     if tier != 'quick':
         from . import crosscheck
@@ -482,7 +522,7 @@ def c04(tier, seed):
     from .accept_checks import acceptance_utf8
     return lex_family('C04', tier, seed, relevant={'C04'},
                       select=with_rejects(lambda ds: [d for d in sel_for(tier, 'unicode')(ds) if d.utf8], 'nonutf8'), name='lex',
-                      acceptance=acceptance_utf8, long_defs=(('long_ident', 20), ('long_float', 20), ('long_skip', 20),) if tier == 'quick' else (('long_ident', 28), ('long_float', 20), ('long_skip', 28), ('strings', 20)),
+                      acceptance=acceptance_utf8, long_defs=(('long_ident', 20), ('long_float', 20), ('long_skip', 20),) if tier == 'quick' else (('long_ident', 28), ('long_float', 20), ('long_skip', 28)),
                       **tp)
 
 
@@ -494,7 +534,7 @@ def c05(tier, seed):
     if tier == 'quick':
         tp['starts'] = (0, 3)
         tp['cfg_filter'] = lambda d, c: c != 'sm-unsafe' or ('loop' in d.tags or 'look' in d.tags)
-    rc = lex_family('C05', tier, seed, relevant={'C05'}, select=sel_for(tier, 'loop'), name='lex',
+    rc = lex_family('C05', tier, seed, relevant={'C05'}, select=sel_for(tier, 'loop'), name='lex', validate_samples=2,
                     long_defs=LONG_QUICK if tier == 'quick' else LONG_THOROUGH,
                     profiles=('dev', 'release'), release_only=(lambda d: 'look' in d.tags) if tier == 'quick' else None,
                     evidence_hook=hook, **tp)
@@ -566,7 +606,7 @@ def c20(tier, seed):
     tp = tier_params(tier)
     return lex_family('C20', tier, seed, relevant={'C20'}, select=sel_for(tier, 'backtrack'), name='lex',
                       long_defs=(('long_loop', 72), ('neg_loop_bytes', 20), ('long_ident', 24), ('long_float', 20), ('long_skip', 24)) if tier == 'quick' else
-                      (('long_loop', 72), ('long_loop', 136), ('kw_ident', 17), ('neg_loop_bytes', 28), ('strings', 20), ('long_ident', 28), ('long_float', 20), ('long_skip', 28)),
+                      (('long_loop', 72), ('long_loop', 136), ('kw_ident', 17), ('neg_loop_bytes', 28), ('long_ident', 28), ('long_float', 20), ('long_skip', 28)),
                       **tp)
 
 
@@ -578,7 +618,7 @@ REGISTRY = {'C15': c15, 'C01': c01, 'C02': c02, 'C03': c03, 'C04': c04, 'C05': c
 # ----------------------------------------------------------------------------- C13 callbacks
 def c13(tier, seed):
     tp = tier_params(tier)
-    return lex_family('C13', tier, seed, relevant={'C13'}, name='lex',
+    return lex_family('C13', tier, seed, relevant={'C13'}, name='lex', validate_samples=3,
                       select=lambda ds: [d for d in ds if 'cb' in d.tags and d.expect == 'accept'], **tp)
 
 
@@ -717,7 +757,7 @@ def c06(tier, seed):
                                      pair=(a, b), N=tp['N'], start=s, budget=tp['budget']))
     # long runs (one next() from 0 over 20-24 symbolic bytes): the 8/16-byte blocks of the fast loops in both generators
     long_pairs = (('long_loop', 24), ('long_ident', 20), ('long_float', 20), ('long_skip', 20), ('neg_loop_bytes', 20)) if tier == 'quick' else \
-        (('long_loop', 40), ('long_ident', 28), ('long_float', 20), ('long_skip', 28), ('neg_loop_bytes', 28), ('strings', 20), ('kw_ident', 17))
+        (('long_loop', 40), ('long_ident', 28), ('long_float', 20), ('long_skip', 28), ('neg_loop_bytes', 28), ('kw_ident', 17))
     for lid, ln in long_pairs:
         for d in P.usable:
             if d.id == lid:
@@ -869,14 +909,14 @@ def c10(tier, seed):
     tp = tier_params(tier)
     thorough = tier != 'quick'
     fam = corpus_defs.literal_family(seed, thorough)
-    return lex_family('C10', tier, seed, relevant={'C01', 'C02'}, select=lambda ds: fam, name='lex', **tp)
+    return lex_family('C10', tier, seed, relevant={'C01', 'C02'}, select=lambda ds: fam, name='lex', validate_samples=2, **tp)
 
 
 def c11(tier, seed):
     from .accept_checks import acceptance_subpattern
     tp = tier_params(tier)
     fam = corpus_defs.subpattern_family() + [d for d in corpus_defs.core() + corpus_defs.reject_core() if 'subpat' in d.tags]
-    return lex_family('C11', tier, seed, relevant={'C01', 'C02'}, select=lambda ds: fam, name='lex',
+    return lex_family('C11', tier, seed, relevant={'C01', 'C02'}, select=lambda ds: fam, name='lex', validate_samples=2,
                       acceptance=acceptance_subpattern, **tp)
 
 
@@ -934,7 +974,7 @@ def c07(tier, seed):
     sel = sel_for(tier, 'look')
     return lex_family('C07', tier, seed, relevant={'C07', 'C01', 'C02', 'C03'}, select=lambda ds: [d for d in sel(ds)], name='lex',
                       partial=True, post=partial_post,
-                      long_defs=(('long_ident', 20), ('long_float', 20), ('long_skip', 20), ('long_loop', 24)) if tier == 'quick' else (('long_ident', 28), ('long_float', 20), ('long_skip', 28), ('long_loop', 40), ('strings', 20)),
+                      long_defs=(('long_ident', 20), ('long_float', 20), ('long_skip', 20), ('long_loop', 24)) if tier == 'quick' else (('long_ident', 28), ('long_float', 20), ('long_skip', 28), ('long_loop', 40)),
                       rule='one case = one leaf of next() on a partial lexer over a symbolic prefix (bytes and length symbolic); '
                            'non-trivial = anything but the immediate None on empty input', **tp)
 
